@@ -47,15 +47,15 @@ PROPS = {
     "C02": {"units": ["U3", "U4", "U15"] + RUNTIME_ALL, "safety_units": ["U6", "U7"]},
     "C03": {"units": ["U3", "U4", "U15"] + RUNTIME_ALL},
     "C14": {"units": ["U4", "U11"], "safety_units": ["U11"]},
-    "C15": {"units": ["U6", "U6b", "U16b", "U16d", "U16f", "U16h"]},
+    "C15": {"units": RUNTIME_ALL},
     "C04": {"units": ["U3", "U4", "U15"] + RUNTIME_ALL, "safety_units": ["U6", "U6b", "U7"] + U9 + U16},
     "C05": {"units": ["U3", "U4", "U6", "U6b", "U8"], "safety_units": ["U6", "U8"]},
     "C06": {"units": ["U2", "U3", "U4", "U6", "U7", "U8", "U15"]},
-    "C07": {"units": ["U9c", "U9d", "U9g", "U9h", "U16g", "U16h", "U10b", "U18"]},
-    "C08": {"units": ["U10", "U10b", "U17"] + U9 + U16, "safety_units": ["U17"]},
-    "C09": {"units": ["U10", "U10b", "U18"] + U9, "safety_units": ["U10", "U10b", "U18"]},
-    "C20": {"units": ["U6", "U6b"]},
-    "C10": {"units": ["U6", "U6b", "U7"] + U9},
+    "C07": {"units": ["U10b", "U18"] + RUNTIME_ALL},
+    "C08": {"units": ["U10", "U10b"] + RUNTIME_ALL, "safety_units": ["U17"]},
+    "C09": {"units": ["U10", "U10b", "U18"] + RUNTIME_ALL, "safety_units": ["U10", "U10b", "U18"]},
+    "C20": {"units": RUNTIME_ALL},
+    "C10": {"units": RUNTIME_ALL},
     "C11": {"units": ["U1", "U2", "U3", "U4", "U5"], "safety_units": ["U1", "U2", "U3", "U4", "U5"]},
     "C12": {"units": ["U1", "U2", "U4", "U5", "U12"], "safety_units": ["U12"]},
     "C13": {"units": ["U1", "U4"]},
